@@ -392,7 +392,7 @@ var clauseKeywords = map[string]bool{
 	"use": true, "split": true, "reveal": true, "inline": true, "induction": true, "trigger": true,
 	"unroll": true, "assert": true, "inst": true, "nounfold": true, "unfold": true, "timeout": true,
 	"bounded": true, "havocs": true, "pure": true, "reads": true, "modifies": true, "decreases": true,
-	"effects": true, "case": true, "fuel": true, "assertret": true, "splitret": true, "mapentries": true, "dyntype": true, "witness-gen": true, "defines": true, "establishes": true, "instdepth": true, "useret": true, "initphase": true, "note": true, "trusted": true, "logged": true,
+	"effects": true, "case": true, "fuel": true, "assertret": true, "splitret": true, "mapentries": true, "dyntype": true, "witness-gen": true, "defines": true, "establishes": true, "instdepth": true, "useret": true, "initphase": true, "note": true, "trusted": true, "logged": true, "instdepthret": true,
 }
 
 // ParseSpecFile reads a contract file. Lines of interest start with "//@" (in .go files) or are
@@ -604,7 +604,7 @@ func ParseSpecFile(path string, pkgPath string) (*SpecFile, error) {
 					curLem.Trigger = call
 				}
 				curLem.Clauses = append(curLem.Clauses, c)
-			case curL != nil && kw != "requires" && kw != "ensures" && kw != "assigns" && kw != "useret" && kw != "splitret" && kw != "assertret":
+			case curL != nil && kw != "requires" && kw != "ensures" && kw != "assigns" && kw != "useret" && kw != "splitret" && kw != "assertret" && kw != "instdepthret":
 				curL.Clauses = append(curL.Clauses, c)
 			case curF != nil:
 				curF.Clauses = append(curF.Clauses, c)
